@@ -248,7 +248,7 @@ func (t *SimTransport) attempt(req *http.Request, ci *callInfo, name string, att
 			if reqLink.Fired {
 				ci.Rec.fire()
 			} else {
-				reqLink.Abort(err) // e.g. the body reader failed: the peer sees a broken connection
+				reqLink.AbortWrite(err) // e.g. the body reader failed: the peer sees a broken connection
 			}
 			events <- event{kind: evWriteErr, err: err}
 			return
@@ -319,7 +319,11 @@ func (t *SimTransport) attempt(req *http.Request, ci *callInfo, name string, att
 	}()
 	defer close(stopWatch)
 
-	var writeErr error
+	// The writer and the response reader can be made runnable by the same event (a link that breaks), and
+	// which of them reports first is up to the Go scheduler. The outcome therefore never depends on the
+	// order of their reports: an error is only returned once both have finished, by fixed priority.
+	var writeErr, respErr error
+	haveResp := false
 	for {
 		ev := <-events
 		switch ev.kind {
@@ -327,12 +331,10 @@ func (t *SimTransport) attempt(req *http.Request, ci *callInfo, name string, att
 			ev.resp.Body = &respBody{rc: ev.resp.Body, ctx: ctx, link: respLink, rec: ci.Rec}
 			return ev.resp, nil, false
 		case evRespErr:
+			respErr, haveResp = ev.err, true
 			respLink.CloseRead()
-			reqLink.Abort(errCut)
-			if writeErr != nil {
-				return nil, writeErr, false
-			}
-			return nil, ev.err, false
+			// The request link is left alone: the server discards what is still in flight and the writer ends
+			// by itself. (Aborting it here would race with the writer's next chunk.)
 		case evWriteErr:
 			// like net/http: a response that still arrives wins; otherwise the response reader fails soon
 			writeErr = ev.err
@@ -340,6 +342,20 @@ func (t *SimTransport) attempt(req *http.Request, ci *callInfo, name string, att
 			reqLink.Abort(context.Canceled)
 			respLink.Abort(context.Canceled)
 			return nil, ev.err, false
+		}
+		if haveResp {
+			<-writeDone // the writer has reported its error, if any, before closing this channel
+			for len(events) > 0 {
+				if ev := <-events; ev.kind == evWriteErr {
+					writeErr = ev.err
+				} else if ev.kind == evCancel {
+					return nil, ev.err, false
+				}
+			}
+			if writeErr != nil {
+				return nil, writeErr, false
+			}
+			return nil, respErr, false
 		}
 	}
 }
@@ -400,7 +416,7 @@ func (t *SimTransport) serve(clientCtx context.Context, in, out *link, side *Ser
 			ci.Rec.fire()
 		}
 		_, _ = io.Copy(io.Discard, br)
-		out.Abort(errCut)
+		out.AbortWrite(errCut)
 		return
 	}
 	// The server's context is its own: it is cancelled when the connection goes away.
@@ -502,7 +518,7 @@ func (w *recWriter) Write(p []byte) (int, error) {
 		w.rec.fire()
 		w.side.WriteErrs++
 		w.broken = true
-		w.out.Abort(errCut)
+		w.out.AbortWrite(errCut)
 		return 0, errCut
 	}
 	if w.broken {
